@@ -15,6 +15,7 @@ them are proxies:
 Exploration = depth-first re-execution.  Every `decide` is a solver query (or a replay of
 a recorded decision).  `unknown` is never treated as a verdict: it raises Inconclusive.
 """
+import os
 import time
 import z3
 
@@ -101,20 +102,106 @@ class Engine:
             if r == z3.sat:
                 self._model = self.solver.model()
         if r == z3.unknown:
-            s2 = z3.SolverFor("QF_BV")
-            s2.set("timeout", self.timeout_ms)
-            s2.add(self.solver.assertions())
-            if extra:
-                s2.add(*extra)
-            r = s2.check()
-            self.n_fresh += 1
-            if r == z3.sat:
-                self._model = s2.model()
+            # stage 2: fresh non-incremental z3 (short), stage 3: cvc5 binary with the exact
+            # BV->Int translation (our terms never wrap, so linear arithmetic is decided as LIA),
+            # stage 4: fresh z3 with the full timeout
+            asserts = list(self.solver.assertions()) + list(extra)
+            r = self._fresh_z3(asserts, min(self.timeout_ms, 6000))
+            if r == z3.unknown:
+                r = self._cvc5(asserts)
+            if r == z3.unknown and self.timeout_ms > 6000:
+                r = self._fresh_z3(asserts, self.timeout_ms)
         self.tq += time.time() - t
         self.nq += 1
         if r == z3.unknown:
             self.n_unknown += 1
+            d = os.environ.get("SX_DUMP_UNKNOWN")
+            if d:
+                s3 = z3.Solver()
+                s3.add(self.solver.assertions())
+                if extra:
+                    s3.add(*extra)
+                open(os.path.join(d, "unknown_%d_%d.smt2" % (os.getpid(), self.nq)), "w").write(s3.to_smt2())
         return r
+
+    def _fresh_z3(self, asserts, timeout_ms):
+        s2 = z3.SolverFor("QF_BV")
+        s2.set("timeout", timeout_ms)
+        s2.add(asserts)
+        r = s2.check()
+        self.n_fresh += 1
+        if r == z3.sat:
+            self._model = s2.model()
+        return r
+
+    def _cvc5(self, asserts):
+        """third opinion: the cvc5 binary on the same assertions (--solve-bv-as-int=sum)"""
+        import shutil
+        import subprocess
+        import tempfile
+        exe = shutil.which("cvc5")
+        if exe is None:
+            return z3.unknown
+        s3 = z3.Solver()
+        s3.add(asserts)
+        consts = {}
+
+        def walk(t, seen=set()):
+            stack = [t]
+            while stack:
+                x = stack.pop()
+                if x.get_id() in seen:
+                    continue
+                seen.add(x.get_id())
+                if z3.is_const(x) and x.decl().kind() == z3.Z3_OP_UNINTERPRETED:
+                    consts[x.decl().name()] = x
+                stack.extend(x.children())
+        seen = set()
+        for a in asserts:
+            walk(a, seen)
+        names = sorted(consts)
+        text = "(set-logic QF_BV)\n(set-option :produce-models true)\n" + s3.to_smt2()
+        if names:
+            text += "\n(get-value (%s))\n" % " ".join("|%s|" % n for n in names)
+        fd, path = tempfile.mkstemp(suffix=".smt2", prefix="sx_")
+        try:
+            with os.fdopen(fd, "w") as f:
+                f.write(text)
+            try:
+                out = subprocess.run([exe, "--solve-bv-as-int=sum", "--tlimit=%d" % self.timeout_ms, path],
+                                     capture_output=True, text=True, timeout=self.timeout_ms / 1000.0 + 5).stdout
+            except subprocess.TimeoutExpired:
+                return z3.unknown
+        finally:
+            os.unlink(path)
+        self.n_cvc5 = getattr(self, "n_cvc5", 0) + 1
+        lines = out.strip().splitlines()
+        if not lines:
+            return z3.unknown
+        if lines[0].strip() == "unsat":       # (the trailing get-value then reports an error: expected)
+            return z3.unsat
+        if lines[0].strip() != "sat" or "(error" in out:
+            return z3.unknown
+        # rebuild a z3 model from cvc5's values, and let z3 confirm it (evaluation only)
+        import re
+        vals = dict(re.findall(r"\(\|?([^|()\s]+)\|?\s+(#b[01]+|#x[0-9a-fA-F]+|true|false)\)", out))
+        s4 = z3.SolverFor("QF_BV")
+        s4.set("timeout", 10000)
+        s4.add(asserts)
+        for n, v in vals.items():
+            c = consts.get(n)
+            if c is None:
+                continue
+            if v in ("true", "false"):
+                s4.add(c == (v == "true"))
+            elif v.startswith("#b"):
+                s4.add(c == z3.BitVecVal(int(v[2:], 2), c.size()))
+            else:
+                s4.add(c == z3.BitVecVal(int(v[2:], 16), c.size()))
+        if s4.check() != z3.sat:
+            return z3.unknown
+        self._model = s4.model()
+        return z3.sat
 
     def check_pop(self):
         """pop the scope pushed by a `check(extra)` that returned sat"""
